@@ -22,7 +22,7 @@ CLASS_ALIASES = {
     'pathlib.PurePath': 'PurePath', 'enum.Enum': 'Enum', 'enum.Flag': 'Flag',
     'traceback.TracebackException': 'TracebackException', 'typing.TypeVar': 'TypeVar',
     'typing.ForwardRef': 'ForwardRef', 'dataclasses.FrozenInstanceError': 'FrozenInstanceError',
-    'io.IOBase': 'IOBase', 'io.TextIOBase': 'TextIOBase', 'io.TextIOWrapper': 'TextIOWrapper',
+    'io.StringIO': 'StringIO', 'io.IOBase': 'IOBase', 'io.TextIOBase': 'TextIOBase', 'io.TextIOWrapper': 'TextIOWrapper',
     'io.BufferedIOBase': 'BufferedIOBase', 'typing.BinaryIO': 'BinaryIO', 'typing.TextIO': 'TextIO',
     'collections.Counter': 'Counter', 'collections.defaultdict': 'defaultdict', 'collections.deque': 'deque',
     'inspect.Parameter': 'Parameter', 'inspect.Signature': 'Signature',
